@@ -333,6 +333,53 @@ func (c *Ctx) newPF() *pfEngine {
 	e.newIntOK = e.extractNewIntegerTypes()
 	memo := map[string]bool{}
 	busy := map[string]bool{}
+	paramNonNeg = func(p *ssa.Parameter, seen map[ssa.Value]bool) bool {
+		f := p.Parent()
+		if f == nil || !an.InModule(f) || f.Parent() != nil || f.Object() == nil || f.Object().Exported() {
+			return false
+		}
+		idx := -1
+		for i, q := range f.Params {
+			if q == p {
+				idx = i
+			}
+		}
+		if idx < 0 {
+			return false
+		}
+		sites := 0
+		for _, g := range c.P.ModuleFuncs() {
+			for _, b := range g.Blocks {
+				for _, in := range b.Instrs {
+					ci, isCall := in.(ssa.CallInstruction)
+					if isCall && ci.Common().IsInvoke() && ci.Common().Method.Name() == f.Name() {
+						return false // may be reached through an interface
+					}
+					for _, op := range in.Operands(nil) {
+						if *op != ssa.Value(f) {
+							continue
+						}
+						if !isCall || ci.Common().Value != ssa.Value(f) {
+							return false // the function escapes as a value
+						}
+						if _, plain := in.(*ssa.Call); !plain {
+							return false // go / defer: still a call, but keep the rule simple
+						}
+						for j, a := range ci.Common().Args {
+							if a == ssa.Value(f) {
+								return false
+							}
+							if j == idx && !nonNegValue(a, seen) {
+								return false
+							}
+						}
+						sites++
+					}
+				}
+			}
+		}
+		return sites > 0
+	}
 	resultNonNeg = func(f *ssa.Function, i int) bool {
 		k := an.FuncKey(f) + "#" + fmt.Sprint(i)
 		if v, ok := memo[k]; ok {
@@ -534,11 +581,24 @@ func isCountingPhi(p *ssa.Phi, seen map[ssa.Value]bool) bool {
 // in-module function is non-negative at every return.
 var resultNonNeg func(f *ssa.Function, i int) bool
 
+// paramNonNeg is set by the engine: reports whether an integer parameter of
+// an unexported module function receives a non-negative value at every call
+// site (the function must not escape as a value and must not be reachable
+// through an interface).
+var paramNonNeg func(p *ssa.Parameter, seen map[ssa.Value]bool) bool
+
 func nonNegValue(v ssa.Value, seen map[ssa.Value]bool) bool {
 	if seen == nil {
 		seen = map[ssa.Value]bool{}
 	}
 	v = an.Strip(v)
+	if p, ok := v.(*ssa.Parameter); ok && paramNonNeg != nil && isIntType(p.Type()) {
+		if seen[v] {
+			return false
+		}
+		seen[v] = true
+		return paramNonNeg(p, seen)
+	}
 	if ex, ok := v.(*ssa.Extract); ok && resultNonNeg != nil {
 		if call, ok := ex.Tuple.(*ssa.Call); ok {
 			if f := call.Common().StaticCallee(); f != nil && an.InModule(f) && len(f.Blocks) > 0 {
